@@ -43,7 +43,10 @@ RULE = ("cases come from one PRNG seeded by VERIF_SEED plus fixed catalogues: Si
         "length 0..70 under several keys / seeds (seeds beyond 32 bits, i*0xFBA4C795 + tweak overflowing); Golomb inputs at "
         "every power of two ± 1 up to 2^26 and random ones; bit lists of every length 0..40; element sets of 0..2000 scripts "
         "of length 0..600; bloom sizes 1..36000 and 1..50 functions; the BIP158 test vectors of "
-        "buidl/test/test_compactfilter.py. A case is non-trivial when its input is not empty; distinct = distinct "
+        "buidl/test/test_compactfilter.py; object-reuse histories (SipHash_2_4 streamed in chunks / copy() / hash() twice, one "
+        "BloomFilter through long add histories with filter_bytes / filterload in between, one parsed CompactFilter queried, "
+        "serialised and hashed repeatedly and compared with built filters), every query made twice and compared with the model "
+        "on the current state. A case is non-trivial when its input is not empty; distinct = distinct "
         "(operation, input) pairs")
 CLAUSES = {
     "SipHash-2-4 (every 16-byte key, every message length)": "proved (siphash_eq_spec, siphash_key_length)",
@@ -52,7 +55,7 @@ CLAUSES = {
     "decoding inverts encoding":
         "proved (golomb_roundtrip, golomb_truncated, unpack_pack, pack_unpack, gcs_roundtrip, gcs_domain, decode_encode_gcs)",
     "compact filter: every inserted element is reported present, for every key and element set":
-        "proved for the code after fix F18a (compact_no_false_negatives, compact_parse_serialize, compact_parse_received); "
+        "proved for the code after fix F18a (compact_no_false_negatives, compact_parse_serialize, compact_filter_hash, compact_parse_received); "
         "behaviour before the fix: F18a_witness",
     "filter headers chain as double-SHA256(filter hash || previous header)": "proved relative to hash (filter_header_chain, filter_header_step)",
     "MurmurHash3_x86_32 (every message length / tail length, every seed)": "proved (murmur3_eq_spec)",
@@ -283,6 +286,198 @@ def bip158_vectors():
     return rows
 
 
+# ------------------------------------------------------------------------------- object-reuse histories
+# One object of the real code goes through a sequence of operations; every query is made twice and compared with the
+# model / specification evaluated on the CURRENT state (the history so far), so a cached, stale or doubled result on
+# a reused object shows up as a mismatch.
+# run_history((kind, spec)) -> list of checks (label, request lines, post, implementation answer, determined)
+def _q2(fn):
+    out = []
+    for _ in range(2):
+        try:
+            out.append(fn())
+        except Exception:
+            out.append(REJECT)
+    return out
+
+
+def _hist_sip(spec):
+    """SipHash_2_4 streaming API: update in chunks, hash() twice, more updates, copy()"""
+    from buidl.siphash import SipHash_2_4
+    key = unx(spec["key"])
+    chunks = [unx(c) for c in spec["chunks"]]
+    checks = []
+    sip = SipHash_2_4(key, chunks[0]) if spec.get("ctor_data") else SipHash_2_4(key).update(chunks[0])
+    sofar = chunks[0]
+
+    def ask(tag, obj, data):
+        for k, a in enumerate(_q2(lambda: str(obj.hash()))):
+            checks.append((f"{tag}:hash#{k}", [f"siphash_spec {xb(key)} {xb(data)}"], "id", a, True))
+            checks.append((f"{tag}:hash#{k}:model", [f"siphash {xb(key)} {xb(data)}"], "id", a, False))
+    ask("c0", sip, sofar)
+    for i, c in enumerate(chunks[1:], 1):
+        r = sip.update(c)
+        sofar += c
+        if i % 2 == 1 or i == len(chunks) - 1:
+            ask(f"c{i}", sip, sofar)
+        if r is not sip:
+            checks.append((f"c{i}:update-returns-self", [], "const:self", "other", True))
+    cp = sip.copy()
+    cp.update(b"tail")
+    ask("copy", cp, sofar + b"tail")
+    ask("orig-after-copy", sip, sofar)
+    one = SipHash_2_4(key, sofar)
+    ask("one-shot", one, sofar)
+    for k, a in enumerate(_q2(lambda: xb(sip.digest()))):
+        checks.append((f"digest#{k}", [f"siphash_spec {xb(key)} {xb(sofar)}"], "le8", a, True))
+    return checks
+
+
+def _hist_bloom(spec):
+    """one BloomFilter through a long add history; filter_bytes / filterload asked twice after every few adds"""
+    import buidl.bloomfilter as BF
+    size, fc, tweak = spec["size"], spec["fc"], spec["tweak"]
+    bf = BF.BloomFilter(size, fc, tweak)
+    items = [unx(i) for i in spec["items"]]
+    checks = []
+
+    def ask(tag, n):
+        flag = spec["flags"][n % len(spec["flags"])]
+        line = f"bloom {size} {fc} {tweak} {flag} {blist(items[:n])}"
+
+        def q():
+            fb = bf.filter_bytes()
+            try:
+                fl = xb(bf.filterload(flag).payload)
+            except Exception:
+                fl = REJECT
+            return f"{xb(fb)} {fl}"
+        for k, a in enumerate(_q2(q)):
+            checks.append((f"{tag}#{k}", [line], "id", a, True))
+    ask("empty", 0)
+    for n, it in enumerate(items, 1):
+        bf.add(it)
+        if n in spec["ask_at"]:
+            ask(f"after{n}", n)
+    for it in items[:3]:        # adding an element again changes nothing
+        bf.add(it)
+    ask("re-added", len(items))
+    return checks
+
+
+def _hist_cf(spec):
+    """one parsed CompactFilter: membership asked many times, serialize / hash twice, __eq__ with built filters"""
+    import buidl.compactfilter as CF
+    key = unx(spec["key"])
+    items = [unx(i) for i in spec["items"]]
+    queries = [unx(q) for q in spec["queries"]]
+    fb = CF.encode_gcs(key, items)
+    cf = CF.CompactFilter.parse(key, fb)
+    line = f"cf {xb(key)} {xb(fb)} {blist(queries)}"
+    checks = []
+
+    def obs():
+        ms = [RawScript(q) in cf for q in queries]
+        return f"{cf.f} {nats(cf_values(cf))} {xb(cf.serialize())} {xb(cf.hash())} {bits_tok(ms)}"
+    for k in range(3):
+        try:
+            a = obs()
+        except Exception:
+            a = REJECT
+        checks.append((f"obs#{k}", [line], "id", a, True))
+        for q in queries[:5]:       # the same queries again, in another order
+            RawScript(q) in cf
+    built = CF.CompactFilter(key, CF.hashed_items(key, items))
+    other_items = items[:-1] if items else [b"x"]
+    other = CF.CompactFilter(key, CF.hashed_items(key, other_items))
+    otherkey = CF.CompactFilter(bytes(15) + b"\x01", CF.hashed_items(key, items))
+    hi = f"hashed_items {xb(key)} {blist(items)}"
+    ho = f"hashed_items {xb(key)} {blist(other_items)}"
+    for k, a in enumerate(_q2(lambda: str(cf == built))):
+        checks.append((f"eq-built#{k}", [], "const:True", a, True))
+    for k, a in enumerate(_q2(lambda: str(built == cf))):
+        checks.append((f"eq-built-sym#{k}", [], "const:True", a, True))
+    for k, a in enumerate(_q2(lambda: str(cf == other))):
+        checks.append((f"eq-other#{k}", [hi, ho], "same", a, True))
+    for k, a in enumerate(_q2(lambda: str(cf == otherkey))):
+        checks.append((f"eq-otherkey#{k}", [], "const:" + str(key == bytes(15) + b"\x01"), a, True))
+    reparsed = CF.CompactFilter.parse(key, cf.serialize())
+    checks.append(("eq-reparsed", [], "const:True", str(reparsed == cf), True))
+    return checks
+
+
+HISTORIES = {"hist:siphash": _hist_sip, "hist:bloom": _hist_bloom, "hist:compactfilter": _hist_cf}
+
+
+def run_history(ks):
+    kind, spec = ks
+    return HISTORIES[kind](spec)
+
+
+def expected_of(post, answers):
+    if post.startswith("const:"):
+        return post[6:]
+    if post == "id":
+        return answers[0]
+    if post == "le8":
+        return answers[0] if answers[0] == REJECT else xb(int(answers[0]).to_bytes(8, "little"))
+    if post == "same":
+        return str(answers[0] == answers[1])
+    raise MachineryError(f"unknown post {post}")
+
+
+def gen_histories(ctx, rng):
+    hist = []
+    for n in range(0, 34):          # total lengths 0..33 split at every kind of block boundary
+        data = rbytes(rng, n + rng.choice([0, 8, 16, 40]))
+        cuts = sorted(rng.randrange(0, len(data) + 1) for _ in range(rng.randrange(1, 6)))
+        chunks = [data[a:b] for a, b in zip([0] + cuts, cuts + [len(data)])]
+        hist.append(("hist:siphash", {"key": xb(rbytes(rng, 16)), "chunks": [xb(c) for c in chunks], "ctor_data": n % 3 == 0}))
+    hist.append(("hist:siphash", {"key": xb(bytes(range(16))), "chunks": [xb(bytes(range(k, k + 1))) for k in range(40)], "ctor_data": False}))
+    for _ in range(ctx.n(3)):        # messages longer than 255 bytes: the length byte wraps
+        data = rbytes(rng, rng.randrange(250, 600))
+        k = rng.randrange(1, len(data))
+        hist.append(("hist:siphash", {"key": xb(rbytes(rng, 16)), "chunks": [xb(data[:k]), xb(data[k:]), xb(b"")], "ctor_data": False}))
+    shapes = [(1, 1), (2, 7), (10, 5), (37, 50), (256, 11), (1000, 20)] + \
+        [(rng.randrange(1, 200), rng.randrange(1, 51)) for _ in range(ctx.n(6))]
+    for size, fc in shapes:
+        n = rng.choice([12, 40, 80]) if size <= 300 else 25
+        items = [rbytes(rng, rng.choice([0, 1, 2, 3, 5, 20, 33, rng.randrange(0, 71)])) for _ in range(n)]
+        if n > 4:
+            items[4] = items[1]
+        ask_at = sorted(set([1, 2, 3, n // 2, n - 1, n] + [rng.randrange(1, n + 1) for _ in range(4)]))
+        hist.append(("hist:bloom", {"size": size, "fc": fc, "tweak": rng.choice([0, 99, 0xFFFFFFFF, rng.getrandbits(32)]),
+                                    "items": [xb(i) for i in items], "ask_at": ask_at, "flags": [1, 0, 2, 255]}))
+    for n in [0, 1, 2, 3, 10, 60] + [rng.randrange(0, 150) for _ in range(ctx.n(6))]:
+        items = [rbytes(rng, rng.choice([1, 22, 25, 34, rng.randrange(0, 100)])) for _ in range(n)]
+        if n >= 3 and rng.random() < 0.5:
+            items[2] = items[0]          # the same script twice
+        queries = items + [rbytes(rng, rng.randrange(0, 30)) for _ in range(10)]
+        rng.shuffle(queries)
+        hist.append(("hist:compactfilter", {"key": xb(rbytes(rng, 16)), "items": [xb(i) for i in items],
+                                            "queries": [xb(q) for q in queries]}))
+    hist.append(("hist:compactfilter", {"key": F18A["key"], "items": F18A["items"], "queries": F18A["items"] + ["x", "x51"]}))
+    return hist
+
+
+def check_histories(ctx, drv, hist):
+    rec = ctx.rec
+    runs = pmap(run_history, hist, workers=ctx.workers, chunksize=2)
+    reqs = sorted({l for checks in runs for (_, lines, _, _, _) in checks for l in lines})
+    ans = dict(zip(reqs, batch_parallel(drv, reqs, workers=ctx.workers)))
+    for (kind, spec), checks in zip(hist, runs):
+        for label, lines, post, impl, determined in checks:
+            want = expected_of(post, [ans[l] for l in lines])
+            case = {"history": kind, "spec": spec, "check": label}
+            if impl == want:
+                rec.ok(kind, (repr(spec)[:200], label))
+            elif determined:
+                rec.violation(kind, case, impl, want, note=label)
+            else:
+                rec.disagreement(kind, case, impl, want, note=label)
+        rec.sample(kind, {"spec": {k: (v if len(repr(v)) < 200 else repr(v)[:200]) for k, v in spec.items()}, "checks": len(checks)}, limit=1)
+
+
 def _dbg(ctx, label):
     if os.environ.get("VERIF_DEBUG"):
         import sys
@@ -480,6 +675,8 @@ def run(ctx):
                 lines.append(("bloom_pos", f"bloom_pos {size} {fc} {tweak} {xb(it)}"))
                 lines.append(("bloom_pos_spec", f"bloom_pos_spec {size} {fc} {tweak} {xb(it)}"))
                 pos_reqs.append(f"bloom_pos_spec {size} {fc} {tweak} {xb(it)}")
+    check_histories(ctx, drv, gen_histories(ctx, rng))
+    _dbg(ctx, "histories checked")
     _dbg(ctx, f"{len(lines)} lines generated")
 
     # ---- run both sides
@@ -529,6 +726,12 @@ def run(ctx):
 def replay(ctx, v):
     """re-execute one recorded violation exactly; True if it still violates"""
     case = v["case"]
+    if "history" in case:
+        drv = ctx.driver("drv_c18")
+        for label, lines, post, impl, _ in run_history((case["history"], case["spec"])):
+            if label == case["check"]:
+                return impl != expected_of(post, [drv.one(l) for l in lines])
+        return False
     if "line" in case:
         return impl_line(case["line"]) != ctx.driver("drv_c18").one(case["line"])
     if case["pred"] == "bip158_vector":
